@@ -8,7 +8,7 @@ From Coq Require Import Permutation.
 From GV Require Import Lib.Tactics Lib.Bytes Rlp.Codec Trie.Hex Trie.Node Trie.Ops Trie.Hash.
 From GV Require Import Trie.OpsProofs Trie.Canon Trie.Proof Trie.ProofProofs Trie.Stack Trie.StackProofs.
 From GV Require Import Trie.Generate Trie.GenerateProofs Trie.GenerateNodes Trie.GenerateNodes4.
-From GV Require Import Trie.Commit Trie.CommitProofs Trie.CommitTracer Trie.CommitReads Trie.CommitSim Trie.CommitSimDel Trie.CommitHist Trie.CommitExact.
+From GV Require Import Trie.Commit Trie.CommitProofs Trie.CommitTracer Trie.CommitReads Trie.CommitSim Trie.CommitSimDel Trie.CommitHist Trie.CommitExact Trie.CommitEvents Trie.CommitTrace Trie.CommitPv Trie.CommitInv3 Trie.CommitNoStale Trie.CommitFinal.
 Local Open Scope N_scope.
 
 Section StackNodes.
@@ -88,7 +88,7 @@ Section StackNodes.
   Qed.
 End StackNodes.
 
-Section FreshExact.
+Section StackClause.
   Variable H : list N -> list N.
   Hypothesis H_len : forall x, length (H x) = 32%nat.
   Hypothesis H_inj_empty : forall e, H e = H empty_root_preimage -> e = empty_root_preimage.
@@ -96,56 +96,41 @@ Section FreshExact.
   Lemma gok_can F : gok F -> is_sf F = true -> can F.
   Proof. intros [->|[X _]] SF; [discriminate|exact X]. Qed.
 
-  (* commit_exact_path, FULL for a commit into the EMPTY path store (a trie built
-     from scratch by any history of Update/Delete/Get/GetNode): the store after
-     applying the node set holds exactly the canonical node set of the ground trie —
-     no stale node, none missing, none wrong *)
-  Theorem commit_exact_path_fresh_sinv ss F r ns :
-    sinv H [] ss F -> commit H ss = Some (r, Some ns) ->
-    forall q b, am_get q (apply_nodeset PathScheme ns []) = Some b <-> In (q, b) (nodes_of H [] F).
+  (* the store after any reachable commit is exactly c11's canonical node set of
+     the ground trie *)
+  Theorem store_is_nodes_of S ss r ons :
+    reachable H S ss -> commit H ss = Some (r, ons) ->
+    exists F, sinv H S ss F /\
+      forall q b, am_get q (applied S ons) = Some b <-> In (q, b) (nodes_of H [] F).
   Proof.
-    intros SI C q b.
-    destruct (commit_exact_path_sinv H H_len [] ss F r ns SI C) as (SO & EX).
-    pose proof SI as [GO _].
-    rewrite (nodes_of_gsub H H_len F (gok_can F GO) [] q b). cbn [is_nil]. split.
-    - intro Q. destruct (EX q b Q) as [X|[_ X]]; [exact X|discriminate].
-    - intros (Gq & GS & EN). destruct SO as [_ SO].
-      assert (CV : covered H (resolve_of H PathScheme (apply_nodeset PathScheme ns [])) true [] F).
-      { destruct F; try (inversion GS; discriminate); destruct SO as (e & _ & _ & X); exact X. }
-      destruct (CV q Gq GS) as (e & E & RS). rewrite EN in E. inversion E; subst e.
-      apply resolve_of_blob in RS. tauto.
+    intros Rch C. destruct (commit_exact_path H H_len H_inj_empty S ss r ons Rch C) as (F & SI & _ & EX).
+    exists F. split; [exact SI|]. intros q b. rewrite (EX q b).
+    pose proof SI as [GO _]. rewrite (nodes_of_gsub H H_len F (gok_can F GO) [] q b). cbn [is_nil]. tauto.
   Qed.
 
-  Theorem commit_exact_path_fresh ss r ns :
-    reachable H [] ss -> commit H ss = Some (r, Some ns) ->
-    exists F, sinv H [] ss F /\
-      forall q b, am_get q (apply_nodeset PathScheme ns []) = Some b <-> In (q, b) (nodes_of H [] F).
+  (* C07 stack-trie clause: for an ascending equal-length key set holding the same
+     content as the committed trie, the nodes the streaming builder's callback
+     receives (c11's builder_emits) are exactly the nodes the path store holds after
+     the commit — in particular, for a trie built from scratch, the committed set *)
+  Theorem stack_nodes_eq_commit S ss r ons :
+    reachable H S ss -> commit H ss = Some (r, ons) ->
+    exists F, sinv H S ss F /\
+      forall kvs L, (1 <= L)%nat ->
+        Forall (fun kv => nibbles (fst kv) /\ length (fst kv) = L /\ snd kv <> []) kvs -> hasc [] kvs ->
+        (forall hk, valid_key hk -> lk F hk = apply_ops (fun _ => None) (hops kvs) hk) ->
+        exists s em h emf,
+          hfeed H stack_new kvs = Some (s, em) /\ st_root_e H s = TOk (h, emf) /\
+          forall q b, In (q, b) (em ++ emf) <-> am_get q (applied S ons) = Some b.
   Proof.
-    intros Rch C. destruct (reachable_sinv H H_len H_inj_empty [] ss Rch) as (F & SI & _).
-    exists F. split; [exact SI|]. exact (commit_exact_path_fresh_sinv ss F r ns SI C).
-  Qed.
-
-  (* C07 stack-trie clause: the nodes the streaming builder emits for an ascending
-     equal-length key set (c11's builder_emits) are, as a set, exactly the nodes a
-     regular trie with the same content commits into an empty path store *)
-  Theorem stack_nodes_eq_commit ss r ns F kvs L :
-    sinv H [] ss F -> commit H ss = Some (r, Some ns) ->
-    (1 <= L)%nat ->
-    Forall (fun kv => nibbles (fst kv) /\ length (fst kv) = L /\ snd kv <> []) kvs -> hasc [] kvs ->
-    (forall hk, valid_key hk -> lk F hk = apply_ops (fun _ => None) (hops kvs) hk) ->
-    exists s em h emf,
-      hfeed H stack_new kvs = Some (s, em) /\ st_root_e H s = TOk (h, emf) /\
-      forall q b, In (q, b) (em ++ emf) <-> am_get q (apply_nodeset PathScheme ns []) = Some b.
-  Proof.
-    intros SI C HL HF HA SAME.
+    intros Rch C. destruct (store_is_nodes_of S ss r ons Rch C) as (F & SI & EX).
+    exists F. split; [exact SI|]. intros kvs L HL HF HA SAME.
     destruct (builder_emits H H_len kvs L HL HF HA) as (s & em & t & h & emf & E1 & E2 & Ct & Lt & _ & PM).
     exists s, em, h, emf. split; [exact E1|]. split; [exact E2|].
     assert (CF : canon F) by (destruct SI as [[->|[X _]] _]; [left; reflexivity|right; exact X]).
     assert (TF : t = F).
     { apply canon_unique; [exact Ct|exact CF|]. intros k Vk. rewrite Lt. symmetry. apply SAME. exact Vk. }
-    subst t.
-    intros q b. rewrite (commit_exact_path_fresh_sinv ss F r ns SI C q b). split; intro X.
+    subst t. intros q b. rewrite (EX q b). split; intro X.
     - eapply Permutation_in; [exact PM|exact X].
     - eapply Permutation_in; [apply Permutation_sym; exact PM|exact X].
   Qed.
-End FreshExact.
+End StackClause.
